@@ -237,6 +237,25 @@ func (a *archetype) FreeTable(table *table) {
 	}
 }
 
+// RemoveTableTargets removes the given table from the archetype's per-target lookups.
+//
+// Required when a table is freed although its relation targets are still alive,
+// so that no later [archetype.RemoveTarget] drops the lookup entries.
+func (a *archetype) RemoveTableTargets(table *table) {
+	for i := range table.columns {
+		column := &table.columns[i]
+		if !column.isRelation {
+			continue
+		}
+		if tables, ok := a.relationTables[i][column.target.id]; ok {
+			_ = tables.Remove(table.id)
+		}
+		if tables, ok := a.targetTables[column.target.id]; ok {
+			_ = tables.Remove(table.id)
+		}
+	}
+}
+
 // FreeAllTables frees all tables of the archetype.
 //
 // Does not clear the tables' contents.
